@@ -780,6 +780,7 @@ class Calls(object):
         o = src.t.ops(cx)
         x = SV(z3.FreshConst(src.t.elem.sort(cx), "cx"), src.t.elem)
         tmp = st.fork()
+        n_pc0 = len(st.pc)
         saved_exc = ev.exc_out
         ev.exc_out = []
         saved_spec = ev.spec
@@ -819,7 +820,9 @@ class Calls(object):
         j = z3.FreshConst(I, "j")
         w = z3.Function("comp_w_%s" % hname, rt.sort(cx), I, I)
         xj = o["nth"](src.e, w(r, j) if g.ifs else j)
-        body = z3.substitute(z3.And(*(conds + [ro["nth"](r, j) == el.e])), (x.e, xj))
+        # facts assumed while evaluating element / filters on the generic element (library facts such as startswith => contains)
+        side = [f_ for f_ in tmp.pc[n_pc0:]]
+        body = z3.substitute(z3.And(*(conds + side + [ro["nth"](r, j) == el.e])), (x.e, xj))
         rng = z3.And(0 <= j, j < ln)
         if g.ifs:
             body = z3.And(0 <= w(r, j), w(r, j) < o["len"](src.e), body)
